@@ -138,3 +138,132 @@ pub async fn run() -> Result<ExitCode> {
 		exit
 	})
 }
+
+/// Verification hooks: only compiled by kani-compiler (`cfg(kani)`), add-only.
+///
+/// Re-exports of the crate-private argument types, thin wrappers over the private normalisation /
+/// interpretation functions, and baseline constructors (clap's `Parser` is the only other way to
+/// obtain these structs, and none of them has a `Default`).
+#[cfg(kani)]
+#[allow(missing_docs, unreachable_pub, clippy::wildcard_imports)]
+pub mod verif {
+	use std::{future::Future, sync::Arc, time::Duration};
+
+	pub use crate::args::{
+		command::{CommandArgs, EnvVar, WrapMode},
+		events::{EmitEvents, EventsArgs, OnBusyUpdate, SignalMapping},
+		filtering::{FilteringArgs, FsEvent},
+		logging::LoggingArgs,
+		output::{ClearMode, ColourMode, OutputArgs},
+		Args, TimeSpan,
+	};
+
+	/// `CommandArgs` as clap yields it for an empty command line.
+	pub fn baseline_command() -> CommandArgs {
+		CommandArgs {
+			shell: None,
+			no_shell: false,
+			no_environment: false,
+			env: Vec::new(),
+			no_process_group: false,
+			wrap_process: WrapMode::Group,
+			stop_signal: None,
+			stop_timeout: TimeSpan(Duration::from_secs(10)),
+			delay_run: None,
+			workdir: None,
+			socket: Vec::new(),
+		}
+	}
+
+	/// `EventsArgs` as clap yields it for an empty command line.
+	pub fn baseline_events() -> EventsArgs {
+		EventsArgs {
+			on_busy_update: OnBusyUpdate::DoNothing,
+			restart: false,
+			signal: None,
+			signal_map: Vec::new(),
+			debounce: TimeSpan(Duration::from_millis(50)),
+			stdin_quit: false,
+			postpone: false,
+			poll: None,
+			emit_events_to: EmitEvents::None,
+		}
+	}
+
+	/// `FilteringArgs` as clap yields it for an empty command line.
+	pub fn baseline_filtering() -> FilteringArgs {
+		FilteringArgs {
+			paths: Vec::new(),
+			recursive_paths: Vec::new(),
+			non_recursive_paths: Vec::new(),
+			watch_file: None,
+			no_vcs_ignore: false,
+			no_project_ignore: false,
+			no_global_ignore: false,
+			no_default_ignore: false,
+			no_discover_ignore: false,
+			ignore_nothing: false,
+			filter_extensions: Vec::new(),
+			filter_patterns: Vec::new(),
+			filter_files: Vec::new(),
+			project_origin: None,
+			filter_programs: Vec::new(),
+			filter_programs_parsed: Vec::new(),
+			ignore_patterns: Vec::new(),
+			ignore_files: Vec::new(),
+			filter_fs_events: Vec::new(),
+			filter_fs_meta: false,
+		}
+	}
+
+	/// `Args` as clap yields it for `watchexec <program...>` and nothing else.
+	pub fn baseline_args(program: Vec<String>) -> Args {
+		Args {
+			program,
+			manual: false,
+			completions: None,
+			only_emit_events: false,
+			once: false,
+			command: baseline_command(),
+			events: baseline_events(),
+			filtering: baseline_filtering(),
+			logging: LoggingArgs {
+				verbose: 0,
+				log_file: None,
+				print_events: false,
+			},
+			output: OutputArgs {
+				screen_clear: None,
+				notify: false,
+				color: ColourMode::Auto,
+				timings: false,
+				quiet: false,
+				bell: false,
+			},
+		}
+	}
+
+	pub fn events_normalise(
+		events: &mut EventsArgs,
+		command: &CommandArgs,
+		filtering: &FilteringArgs,
+		only_emit_events: bool,
+	) -> miette::Result<()> {
+		events.normalise(command, filtering, only_emit_events)
+	}
+
+	pub fn filtering_normalise<'a>(
+		filtering: &'a mut FilteringArgs,
+		command: &'a CommandArgs,
+	) -> impl Future<Output = miette::Result<()>> + 'a {
+		filtering.normalise(command)
+	}
+
+	pub fn interpret_command_args(args: &Args) -> miette::Result<Arc<watchexec::command::Command>> {
+		crate::config::verif_interpret_command_args(args)
+	}
+
+	pub fn events_to_simple_format(events: &[watchexec_events::Event]) -> miette::Result<String> {
+		crate::emits::events_to_simple_format(events)
+	}
+}
